@@ -40,6 +40,7 @@ NOINST static void switchTo(int to) { g_current.store(to, std::memory_order_rele
 NOINST static void vfPoint(bool coarse, void* fn) {
 #ifndef VF_FREERUN
     int tid = t_tid; if (tid < 0 || !g_active) return;
+    if (g_ts[tid].done) return;   // allocations of the thread's own exit path are not scheduling points
     TS& ts = g_ts[tid]; ts.fine++; if (coarse) ts.coarse++; if (fn) ts.lastFn = fn;
     if (g_planPos < g_plan.size()) {
         const Preempt& p = g_plan[g_planPos];
@@ -65,6 +66,16 @@ extern "C" {
 NOINST void __cyg_profile_func_enter(void* fn, void*) { vfPoint(false, fn); }
 NOINST void __cyg_profile_func_exit(void* fn, void*) { vfPoint(false, fn); }
 }
+// ---- allocation points: every operator new / delete of a managed thread is a FINE scheduling point, which puts scheduling points
+// INSIDE library functions (between two std calls that allocate), e.g. inside the formatting of a name through a stringstream.
+#ifndef VF_FREERUN
+NOINST void* operator new(size_t n) { vfPoint(false, nullptr); void* p = malloc(n ? n : 1); if (!p) throw std::bad_alloc(); return p; }
+NOINST void* operator new[](size_t n) { vfPoint(false, nullptr); void* p = malloc(n ? n : 1); if (!p) throw std::bad_alloc(); return p; }
+NOINST void operator delete(void* p) noexcept { vfPoint(false, nullptr); free(p); }
+NOINST void operator delete[](void* p) noexcept { vfPoint(false, nullptr); free(p); }
+NOINST void operator delete(void* p, size_t) noexcept { vfPoint(false, nullptr); free(p); }
+NOINST void operator delete[](void* p, size_t) noexcept { vfPoint(false, nullptr); free(p); }
+#endif
 // ---- libc interposition: coarse points ------------------------------------------------------------
 #ifndef VF_FREERUN
 extern "C" {
@@ -163,6 +174,22 @@ static std::string firstDiffLine(const std::string& a, const std::string& b) {
     std::stringstream sa(a), sb(b); std::string la, lb; while (true) { bool ea = !std::getline(sa, la), eb = !std::getline(sb, lb); if (ea && eb) return "?"; if (ea || eb || la != lb) { std::string k = ea ? lb : la; return k.substr(0, k.find(' ')); } }
 }
 
+// Every execution runs in its OWN freshly forked process that has never executed library code ("cold"): lazily initialised
+// process-wide state (function-local statics, tables filled at first use) is then part of what the schedules interleave.
+static std::string inChild(const std::string& resultPath, const std::function<std::string()>& fn, int* statusOut = nullptr) {
+    unlink(resultPath.c_str()); fflush(stdout); fflush(stderr);
+    pid_t c = fork();
+    if (c == 0) { alarm(30); std::string r = fn(); FILE* f = fopen(resultPath.c_str(), "wb"); if (f) { fwrite(r.data(), 1, r.size(), f); fclose(f); } _exit(0); }   // a deadlocked execution is ended by SIGALRM
+    int st = 0; waitpid(c, &st, 0);
+    if (statusOut) *statusOut = (WIFSIGNALED(st) && WTERMSIG(st) == SIGALRM) ? -1 : st;
+    std::string out; readAll(resultPath, out); return out;
+}
+static std::string packExec(const ExecOut& o) {   // digests and counters, length-prefixed
+    std::string r; for (size_t i = 0; i < o.digests.size(); ++i) { r += std::to_string(o.fine[i]) + " " + std::to_string(o.coarse[i]) + " " + std::to_string(o.digests[i].size()) + "\n" + o.digests[i]; } return r;
+}
+static ExecOut unpackExec(const std::string& r) {
+    ExecOut o; size_t p = 0; while (p < r.size()) { size_t nl = r.find('\n', p); if (nl == std::string::npos) break; unsigned long long f = 0, c = 0, n = 0; sscanf(r.c_str() + p, "%llu %llu %llu", &f, &c, &n); o.fine.push_back(f); o.coarse.push_back(c); o.digests.push_back(r.substr(nl + 1, (size_t)n)); p = nl + 1 + (size_t)n; } return o;
+}
 struct Sched { int pair; int first; std::vector<Preempt> plan; };
 struct FCrumb { volatile uint64_t idx, progress; volatile uint32_t done; };
 
@@ -188,7 +215,15 @@ int main(int argc, char** argv) {
 #else
     // ---- solo digests and point counts ---------------------------------------------------------------
     std::vector<std::string> solo(defs.size()); std::vector<uint64_t> fineN(defs.size()), coarseN(defs.size());
-    for (size_t b = 0; b < defs.size(); ++b) { ExecOut o = execute(defs, {(int)b}, scratch, {}, 0); solo[b] = o.digests[0]; fineN[b] = o.fine[0]; coarseN[b] = o.coarse[0]; ExecOut o2 = execute(defs, {(int)b}, scratch, {}, 0); if (o2.digests[0] != solo[b] || o2.fine[0] != fineN[b]) { fprintf(stderr, "body %s is not deterministic when run alone\n", defs[b].name.c_str()); return 3; } }
+    std::vector<std::string> soloDiffers;
+    for (size_t b = 0; b < defs.size(); ++b) {   // the master never runs library code itself: solo runs happen in pristine children
+        std::string r = inChild(scratch + "/solo.res", [&] { ExecOut cold = execute(defs, {(int)b}, scratch, {}, 0); ExecOut warm = execute(defs, {(int)b}, scratch, {}, 0); ExecOut both; both.digests = {cold.digests[0], warm.digests[0]}; both.fine = {cold.fine[0], warm.fine[0]}; both.coarse = {cold.coarse[0], warm.coarse[0]}; return packExec(both); });
+        ExecOut o = unpackExec(r); if (o.digests.size() != 2) { fprintf(stderr, "solo run of %s failed\n", defs[b].name.c_str()); return 3; }
+        solo[b] = o.digests[0]; fineN[b] = o.fine[0]; coarseN[b] = o.coarse[0];
+        if (o.digests[1] != solo[b]) soloDiffers.push_back(defs[b].name);                          // what a thread observes depends on what ran before in the process
+        std::string r2 = inChild(scratch + "/solo.res", [&] { return packExec(execute(defs, {(int)b}, scratch, {}, 0)); }); ExecOut o2 = unpackExec(r2);
+        if (o2.digests.size() != 1 || o2.digests[0] != solo[b] || o2.fine[0] != fineN[b]) { fprintf(stderr, "body %s is not deterministic when run alone in a fresh process\n", defs[b].name.c_str()); return 3; }
+    }
     // ---- schedules ------------------------------------------------------------------------------------
     std::vector<Sched> S;
     for (size_t gi = 0; gi < groups.size(); ++gi) {
@@ -200,8 +235,8 @@ int main(int argc, char** argv) {
     auto schedText = [&](const Sched& s) { std::string t = "group=" + std::to_string(s.pair) + ";first=" + std::to_string(s.first); for (auto& p : s.plan) t += ";preempt(t" + std::to_string(p.tid) + (p.coarse ? ",coarse#" : ",fine#") + std::to_string(p.at) + "->t" + std::to_string(p.to) + ")"; return t; };
     if (!one.empty()) {
         for (auto& s : S) if (schedText(s) == one) {
-            for (int rep = 0; rep < 2; ++rep) { ExecOut o = execute(defs, groups[(size_t)s.pair], scratch, s.plan, s.first); for (size_t i = 0; i < o.digests.size(); ++i) { bool same = o.digests[i] == solo[(size_t)groups[(size_t)s.pair][i]]; printf("run %d thread %zu (%s): digest %s%s\n", rep + 1, i, defs[(size_t)groups[(size_t)s.pair][i]].name.c_str(), same ? "== solo" : "DIFFERS from solo at ", same ? "" : firstDiffLine(o.digests[i], solo[(size_t)groups[(size_t)s.pair][i]]).c_str()); }
-                printf("  preempted in: %s\n", fnName(g_preemptFn[0]).c_str()); }
+            for (int rep = 0; rep < 2; ++rep) { std::string raw = inChild(scratch + "/replay.res", [&] { ExecOut e = execute(defs, groups[(size_t)s.pair], scratch, s.plan, s.first); return packExec(e) + "@FN@" + fnName(g_preemptFn[0]); }); ExecOut o = unpackExec(raw); std::string fnr = raw.rfind("@FN@") == std::string::npos ? "?" : raw.substr(raw.rfind("@FN@") + 4); if (o.digests.size() != groups[(size_t)s.pair].size()) { printf("run %d: the execution died\n", rep + 1); continue; } for (size_t i = 0; i < o.digests.size(); ++i) { bool same = o.digests[i] == solo[(size_t)groups[(size_t)s.pair][i]]; printf("run %d thread %zu (%s): digest %s%s\n", rep + 1, i, defs[(size_t)groups[(size_t)s.pair][i]].name.c_str(), same ? "== solo" : "DIFFERS from solo at ", same ? "" : firstDiffLine(o.digests[i], solo[(size_t)groups[(size_t)s.pair][i]]).c_str()); }
+                printf("  preempted in: %s\n", fnr.c_str()); }
             return 0;
         }
         printf("schedule not found\n"); return 2;
@@ -217,11 +252,17 @@ int main(int argc, char** argv) {
                 if ((int)(i % (uint64_t)workers) != wi) continue; if (nowS() > deadline) break;
                 crumbs[wi].idx = i; crumbs[wi].progress++;
                 const Sched& s = S[i]; const auto& g = groups[(size_t)s.pair];
-                ExecOut o = execute(defs, g, wdir, s.plan, s.first); bool bad = false; std::string what;
+                std::string fnAt; int cst = 0;
+                bool coldProc = thorough || s.plan.size() <= 1;   // quick tier: the two-preemption sweep over coarse points runs inside the (warm) worker
+                auto runCold = [&]() { if (!coldProc) { ExecOut e = execute(defs, g, wdir, s.plan, s.first); FILE* fx = fopen((wdir + ".exec").c_str(), "wb"); std::string r = packExec(e) + "@FN@" + fnName(g_preemptFn[0]); fwrite(r.data(), 1, r.size(), fx); fclose(fx); cst = 0; return e; }
+                    return unpackExec(inChild(wdir + ".exec", [&] { ExecOut e = execute(defs, g, wdir, s.plan, s.first); return packExec(e) + "@FN@" + fnName(g_preemptFn[0]); }, &cst)); };
+                auto fnOf = [&]() { std::string raw; readAll(wdir + ".exec", raw); size_t q = raw.rfind("@FN@"); return q == std::string::npos ? std::string("?") : raw.substr(q + 4); };
+                ExecOut o = runCold(); fnAt = fnOf(); bool bad = false; std::string what;
+                if (o.digests.size() != g.size()) { fprintf(fo, "C\t%llu\t%s\n", (unsigned long long)i, cst == -1 ? "hang/deadlock" : WIFSIGNALED(cst) ? ("signal " + std::to_string(WTERMSIG(cst))).c_str() : "exit"); fprintf(fo, "D\t%llu\t%zu\n", (unsigned long long)i, s.plan.size()); fflush(fo); continue; }
                 for (size_t k = 0; k < g.size(); ++k) if (o.digests[k] != solo[(size_t)g[k]]) { bad = true; what += "t" + std::to_string(k) + ":" + defs[(size_t)g[k]].name + "@" + firstDiffLine(o.digests[k], solo[(size_t)g[k]]) + " "; }
                 if (bad) {   // replay before report: the same schedule must fail the same way
-                    ExecOut o2 = execute(defs, g, wdir, s.plan, s.first); bool same = o2.digests == o.digests;
-                    fprintf(fo, "V\t%llu\t%s\t%s\t%s\n", (unsigned long long)i, same ? "deterministic" : "NOT-REPRODUCED", fnName(g_preemptFn[0]).c_str(), what.c_str());
+                    ExecOut o2 = runCold(); bool same = o2.digests == o.digests;
+                    fprintf(fo, "V\t%llu\t%s\t%s\t%s\n", (unsigned long long)i, same ? "deterministic" : "NOT-REPRODUCED", fnAt.c_str(), what.c_str());
                 }
                 fprintf(fo, "D\t%llu\t%zu\n", (unsigned long long)i, s.plan.size()); fflush(fo);
             }
@@ -250,10 +291,12 @@ int main(int argc, char** argv) {
         std::ifstream fr(scratch + "/w" + std::to_string(wi) + ".res"); std::string line;
         while (std::getline(fr, line)) {
             std::vector<std::string> f; size_t a = 0; while (true) { size_t b = line.find('\t', a); f.push_back(line.substr(a, b == std::string::npos ? std::string::npos : b - a)); if (b == std::string::npos) break; a = b + 1; }
+            if (f[0] == "C" && f.size() >= 3) { uint64_t i = strtoull(f[1].c_str(), nullptr, 10); crashes.push_back({f[2], i < S.size() ? schedText(S[i]) : "?"}); }
             if (f[0] == "D" && f.size() >= 3) { done++; int np = atoi(f[2].c_str()); if (np >= 0 && np < 3) byPre[np]++; }
             if (f[0] == "V" && f.size() >= 5) { uint64_t i = strtoull(f[1].c_str(), nullptr, 10); const Sched& s = S[i]; std::string sig = (f[2] == "deterministic" ? "digest_differs/" : "harness/schedule_not_reproducible/") + groupName(groups[(size_t)s.pair]) + "/preempted_in=" + f[3] + "/" + f[4]; auto it = viol.find(sig); if (it == viol.end()) viol[sig] = {sig, schedText(s), f[4], 1}; else it->second.count++; }
         }
     }
+    for (auto& nm : soloDiffers) viol["solo"] = {"solo_runs_differ/" + nm, "first and second run of the body alone in one process", "the body's observations depend on what ran before in the process (hidden process-wide state)", 1};
     FILE* f = out.empty() ? stdout : fopen(out.c_str(), "w");
     fprintf(f, "{\n \"mode\": \"explore\", \"tier\": %s, \"schedules\": %zu, \"done\": %llu, \"by_preemptions\": [%llu, %llu, %llu], \"restarts\": %d, \"wall_s\": %.1f,\n \"groups\": [", jstr(tier).c_str(), S.size(), (unsigned long long)done, (unsigned long long)byPre[0], (unsigned long long)byPre[1], (unsigned long long)byPre[2], restarts, nowS() - t0);
     for (size_t gi = 0; gi < groups.size(); ++gi) { fprintf(f, "%s{\"threads\": %s, \"fine_points\": [", gi ? ", " : "", jstr(groupName(groups[gi])).c_str()); for (size_t k = 0; k < groups[gi].size(); ++k) fprintf(f, "%s%llu", k ? "," : "", (unsigned long long)fineN[(size_t)groups[gi][k]]); fprintf(f, "], \"coarse_points\": ["); for (size_t k = 0; k < groups[gi].size(); ++k) fprintf(f, "%s%llu", k ? "," : "", (unsigned long long)coarseN[(size_t)groups[gi][k]]); fprintf(f, "]}"); }
